@@ -313,7 +313,7 @@ func runTxScriptRules(c *Ctx, fn *ssa.Function, nameF, valueF, postingsF *types.
 		}
 	}
 	if len(t.loops) == 0 {
-		c.bad("R09b", "TxToScriptData:one-send-per-posting-in-order", fn.Pos(), "no `for … range txData.Postings` loop found: postings are not translated one by one in order")
+		c.undecided("R09b", "TxToScriptData:one-send-per-posting-in-order", fn.Pos(), "no `for … range txData.Postings` loop found in TxToScriptData itself: the translation of postings moved out of the shape this rule decides")
 		return
 	}
 
